@@ -394,3 +394,71 @@ Definition run_meta_ok (inp : list Z) : list Z :=
   | Some (x, []) => out_bool (meta_ok x) ++ out_bool (meta_rt_b x)
   | _ => bad_input
   end.
+
+(* ---- components of C08: the reference SMF decoder / encoder ---- *)
+Require Import Mido.Model.SmfSpec.
+Definition out_raw (de : Z * raw) : list Z :=
+  fst de :: match snd de with
+            | RChan st d => 0 :: st :: out_list d
+            | RCommon st d => 1 :: st :: out_list d
+            | RSysex d => 2 :: out_list d
+            | RMeta ty p => 3 :: ty :: out_list p
+            end.
+Definition out_rawfile (f : rawfile) : list Z :=
+  let '((a, b, c), trs) := f in
+  a :: b :: c :: zlen trs :: flat_map (fun tr => zlen tr :: flat_map out_raw tr) trs.
+Definition run_ref_decode (inp : list Z) : list Z :=
+  match ref_decode inp with Some f => 0 :: out_rawfile f | None => [-1; 0] end.
+Definition fix_file (f : midifile) : midifile := {| f_type := f_type f; f_tpb := f_tpb f; f_tracks := map fix_eot (f_tracks f) |}.
+(* [cs; normalise?; file] -> the raw file the typed file denotes *)
+Definition run_raw_of (inp : list Z) : list Z :=
+  match inp with
+  | cs :: nrm :: r => match in_file r with
+                      | Some (f, []) => out_res out_rawfile (raw_of_file (in_codec cs) (if nrm =? 0 then f else fix_file f))
+                      | _ => bad_input
+                      end
+  | _ => bad_input
+  end.
+Fixpoint in_choices_n (n : nat) (l : list Z) : option (list choice * list Z) :=
+  match n with
+  | O => Some ([], l)
+  | S k => match l with
+           | a :: b :: c :: r => match in_choices_n k r with
+                                 | Some (cs, r') => Some ({| pad_dt := Z.to_nat a; pad_len := Z.to_nat b; use_rs := negb (c =? 0) |} :: cs, r')
+                                 | None => None
+                                 end
+           | _ => None
+           end
+  end.
+Fixpoint in_choicess (n : nat) (l : list Z) : option (list (list choice) * list Z) :=
+  match n with
+  | O => Some ([], l)
+  | S k => match l with
+           | c :: r => match in_choices_n (Z.to_nat c) r with
+                       | Some (cs, r') => match in_choicess k r' with Some (css, r'') => Some (cs :: css, r'') | None => None end
+                       | None => None
+                       end
+           | [] => None
+           end
+  end.
+(* [cs; extra (list); ntracks; per track: n, n x (pad_dt, pad_len, use_rs); file] -> bytes of the chosen legal encoding *)
+Definition run_enc_with (inp : list Z) : list Z :=
+  match inp with
+  | cs :: r =>
+      match in_list r with
+      | Some (extra, nt :: r1) =>
+          match in_choicess (Z.to_nat nt) r1 with
+          | Some (css, r2) =>
+              match in_file r2 with
+              | Some (f, []) => match raw_of_file (in_codec cs) f with
+                                | Ok rf => 0 :: out_list (enc_file extra css rf)
+                                | Raise e => [-1; exn_code e]
+                                end
+              | _ => bad_input
+              end
+          | None => bad_input
+          end
+      | _ => bad_input
+      end
+  | [] => bad_input
+  end.
